@@ -10,6 +10,8 @@ R5 occurrence identity: every condition context's context_id contains the field 
 R6 the arguments of a launch derive from the occurrence being launched
 R7 valid conditions are consumed after the launch loop, only when no dependant trigger is pending
 R8 launch cardinality: one launch per pending occurrence unless several distinct conditions are combined
+R9 a lost claim skips one occurrence only: the launch loop stops early only after a launch
+R10 the cron compare-and-swap follows a schedule test on the very value it expects
 """
 
 from __future__ import annotations
@@ -251,6 +253,91 @@ def _anc(pm, node):
         cur = pm.get(id(cur))
 
 
+def r9(ctx: Context, loop: FuncInfo) -> None:
+    ctx.rule("R9", "a lost claim skips only that occurrence: inside the launch loop over the run ids every break / return is dominated by the execute_task call of the same iteration (the loop may stop early only after a launch, never because another runner holds one id)")
+    g = func_cfg(ctx.repo, loop)
+    pm = parent_map(loop.node)
+    dom = g.dominators()
+    n = 0
+    for c in [c for c in calls_in(loop.node) if call_name(c) == "execute_task"]:
+        fors = [a for a in _anc(pm, c) if isinstance(a, ast.For)]
+        if not fors:
+            continue
+        launch_nodes = {x.id for x in cfg_node_of(g, loop.node, c, pm)}
+        exits = [x for st in fors[0].body for x in ast.walk(st) if isinstance(x, (ast.Break, ast.Return))]
+        bad = None
+        for e in exits:
+            for en in cfg_node_of(g, loop.node, e, pm):
+                if not (dom.get(en.id, set()) & launch_nodes):
+                    bad = e
+        n += 1
+        ctx.add("R9", f"{loop.qualname}::lost-claim-does-not-abandon-other-occurrences", bad is None, loop.loc(bad or c),
+                "" if bad is None else "the loop over the run ids can stop without having launched the current one: when another runner holds the claim of one occurrence the remaining pending occurrences are never launched, yet their conditions are cleared afterwards")
+    ctx.floor("R9", "launch loops", n, 1)
+
+
+def _implied_by_not(test: ast.AST, pred) -> ast.Call | None:
+    """test is `not <call satisfying pred>` or an `or` with such a disjunct: then (call is false) => test"""
+    if isinstance(test, ast.UnaryOp) and isinstance(test.op, ast.Not) and isinstance(test.operand, ast.Call) and pred(test.operand):
+        return test.operand
+    if isinstance(test, ast.BoolOp) and isinstance(test.op, ast.Or):
+        for v in test.values:
+            r = _implied_by_not(v, pred)
+            if r is not None:
+                return r
+    return None
+
+
+def r10(ctx: Context) -> None:
+    ctx.rule("R10", "the cron compare-and-swap is attempted only for a stored value the schedule was evaluated against: in the function calling store_last_cron_execution(expected_last_execution=E), whenever E (read from the store) is set, `is_satisfied_by(CronContext(last_execution=E))` is evaluated and its falsity returns without writing - a cached value never replaces that test")
+    bt = ctx.repo.cls("BaseTrigger")
+    n = 0
+    for f in bt.methods.values():
+        cas = [c for c in calls_in(f.node) if call_name(c) == "store_last_cron_execution" and isinstance(c.func, ast.Attribute)]
+        for c in cas:
+            n += 1
+            key = f"{f.qualname}::cas-expected-value-was-evaluated"
+            e = next((k.value for k in c.keywords if k.arg == "expected_last_execution"), c.args[2] if len(c.args) > 2 else None)
+            if not isinstance(e, ast.Name):
+                ctx.fail("R10", key, f.loc(c), "the expected value of the compare-and-swap is not a local read from the store")
+                continue
+            reads = [v for v in c01._reaching_values(f, e.id)]
+            from_store = bool(reads) and all(isinstance(v, ast.Call) and call_name(v) == "get_last_cron_execution" for v in reads)
+            # contexts built on E
+            ctx_names = set()
+            for st in walk_no_nested(f.node):
+                if isinstance(st, ast.Assign) and isinstance(st.value, ast.Call) and call_name(st.value) == "CronContext" and any(k.arg == "last_execution" and isinstance(k.value, ast.Name) and k.value.id == e.id for k in st.value.keywords):
+                    ctx_names |= {t.id for t in st.targets if isinstance(t, ast.Name)}
+            good = None
+            for st in walk_no_nested(f.node):
+                if not isinstance(st, ast.If) or st.lineno > c.lineno:
+                    continue
+                call = _implied_by_not(st.test, lambda x: call_name(x) == "is_satisfied_by")
+                if call is None or not call.args:
+                    continue
+                a = call.args[0]
+                on_e = (isinstance(a, ast.Name) and a.id in ctx_names and _last_bind_is_on(f, a.id, st, e.id)) or (isinstance(a, ast.Call) and call_name(a) == "CronContext" and any(k.arg == "last_execution" and isinstance(k.value, ast.Name) and k.value.id == e.id for k in a.keywords))
+                returns = bool(st.body) and isinstance(st.body[-1], ast.Return) and (st.body[-1].value is None or (isinstance(st.body[-1].value, ast.Constant) and st.body[-1].value.value is None))
+                # the test sits in the `if E:` region or at function level (not under an unrelated guard)
+                pm = parent_map(f.node)
+                guards = [a_ for a_ in _anc(pm, st) if isinstance(a_, ast.If)]
+                guard_ok = all(isinstance(g_.test, ast.Name) and g_.test.id == e.id and any(x is st for b in g_.body for x in ast.walk(b)) for g_ in guards)
+                if on_e and returns and guard_ok:
+                    good = st
+            ok = from_store and good is not None
+            ctx.add("R10", key, ok, f.loc(c), "" if ok else ("the expected value is not read from the store" if not from_store else f"no unconditional `if not <cond>.is_satisfied_by(CronContext(last_execution={e.id})): return None` precedes the compare-and-swap: a runner whose cache is stale passes the schedule test on the cached value, reads the fresh stored value, and swaps successfully - the same tick fires twice"))
+    ctx.floor("R10", "cron compare-and-swap call sites", n, 1)
+
+
+def _last_bind_is_on(f: FuncInfo, name: str, before: ast.stmt, e: str) -> bool:
+    last = None
+    for st in walk_no_nested(f.node):
+        if isinstance(st, ast.Assign) and any(isinstance(t, ast.Name) and t.id == name for t in st.targets) and st.lineno < before.lineno:
+            if last is None or st.lineno > last.lineno:
+                last = st
+    return last is not None and isinstance(last.value, ast.Call) and call_name(last.value) == "CronContext" and any(k.arg == "last_execution" and isinstance(k.value, ast.Name) and k.value.id == e for k in last.value.keywords)
+
+
 def run(ctx: Context) -> None:
     sites = sqlmini.sites(ctx.repo)
     loop = ctx.repo.cls("BaseTrigger").methods.get("trigger_loop_iteration")
@@ -261,6 +348,8 @@ def run(ctx: Context) -> None:
     r4(ctx)
     r5(ctx, sites)
     r6_r7_r8(ctx, loop)
+    r9(ctx, loop)
+    r10(ctx)
     ctx.exhaustive = True
     ctx.not_decided += [
         "the cron window / minimum-interval / next-tick arithmetic against a brute-force schedule (numeric over runtime timestamps and croniter)",
